@@ -118,6 +118,60 @@ pub fn compile_in(
   Outcome::Compiled(Compiled { ts, wat, wasm, main_fn })
 }
 
+/// `vh mir-types --in PROGRAMS.ndjson --out FILE`: per program, the enum layouts chosen by the
+/// compiler (read from the public `mir::Sources.type_definitions` of the unoptimised MIR):
+/// {"id", "layouts": {"<TypeName>": ["i31" | "unboxed" | "boxed", ...]}}
+pub fn mir_types_main(args: &[String]) {
+  use crate::util::{arg, guarded, silence_panics};
+  use std::io::Write;
+  silence_panics();
+  let input = std::fs::read_to_string(arg(args, "--in").expect("--in")).unwrap();
+  let mut f = std::io::BufWriter::new(std::fs::File::create(arg(args, "--out").expect("--out")).unwrap());
+  for line in input.lines().filter(|l| !l.trim().is_empty()) {
+    let rec: serde_json::Value = serde_json::from_str(line).unwrap();
+    let sources: BTreeMap<String, String> = serde_json::from_value(rec["sources"].clone()).unwrap();
+    let mut heap = Heap::new();
+    let mut handles: HashMap<ModuleReference, String> = samlang_parser::builtin_std_raw_sources(&mut heap);
+    for (name, text) in &sources {
+      let m = module_ref(&mut heap, name);
+      handles.insert(m, text.clone());
+    }
+    let out = guarded(|| {
+      let mut error_set = samlang_errors::ErrorSet::new();
+      let mut parsed = HashMap::new();
+      for (m, text) in &handles {
+        parsed.insert(*m, samlang_parser::parse_source_module_from_text(text, *m, &mut heap, &mut error_set));
+      }
+      let checked = samlang_checker::type_check_sources(&parsed, &mut error_set).0;
+      if error_set.has_errors() {
+        return serde_json::json!({"id": rec["id"], "rejected": true});
+      }
+      let mir = samlang_compiler::compile_sources_to_mir(&mut heap, &checked);
+      let mut layouts = serde_json::Map::new();
+      for d in &mir.type_definitions {
+        if let samlang_ast::mir::TypeDefinitionMappings::Enum(vs) = &d.mappings {
+          let name = d.name.encoded_for_test(&heap, &mir.symbol_table);
+          let v: Vec<&str> = vs
+            .iter()
+            .map(|v| match v {
+              samlang_ast::mir::EnumTypeDefinition::Int31 => "i31",
+              samlang_ast::mir::EnumTypeDefinition::Unboxed(_) => "unboxed",
+              samlang_ast::mir::EnumTypeDefinition::Boxed(_) => "boxed",
+            })
+            .collect();
+          layouts.insert(name, serde_json::json!(v));
+        }
+      }
+      serde_json::json!({"id": rec["id"], "layouts": layouts})
+    });
+    match out {
+      Ok(v) => writeln!(f, "{}", v).unwrap(),
+      Err(p) => writeln!(f, "{}", serde_json::json!({"id": rec["id"], "crashed": p})).unwrap(),
+    }
+  }
+  f.flush().unwrap();
+}
+
 /// Reads `/repo/tests/*.sam` (as `tests.<Name>`) and, when `shadow_std`, `/repo/std/*.sam` as user modules.
 pub fn repo_tests_sources() -> BTreeMap<String, String> {
   let mut m = BTreeMap::new();
